@@ -8,7 +8,7 @@
 #     failure) and through the driver (real BuildSystemFrontend, keep-going or cancelling delegate), serial and
 #     parallel, judged by oracles computed from the description graph alone; keep-going fresh builds are also
 #     compared with the model's prediction (D-tie).
-import os, json, shutil, re
+import os, json, shutil, re, time
 from concurrent.futures import ThreadPoolExecutor
 import vlib
 
@@ -637,8 +637,17 @@ def run_histories(chk, drv, llb, model):
     hs = [gen_history(chk.rng, i, modes) for i in range(n)]
     # a fixed corpus first: the two laundering shapes and a second-failing-input shape
     total = dict(builds=0, failing_builds=0, launder_pv=0, launder_sy=0, dtie=0, downstream_checked=0)
+    # in batches, so that the quick tier can stop on a loaded machine (budget: 80 s of wall time since the check began,
+    # never fewer than one batch of every mode)
+    results, batch = [], len(modes)
     with ThreadPoolExecutor(max_workers=4) as ex:
-        results = list(ex.map(lambda h: run_history(h, drv, llb, model), hs))
+        for i in range(0, n, batch):
+            if chk.quick() and i > 0 and time.time() - chk.t0 > 80:
+                chk.notes["histories_cut_short_by_wall_time"] = "%d of %d" % (i, n)
+                break
+            results += list(ex.map(lambda h: run_history(h, drv, llb, model), hs[i:i + batch]))
+    hs = hs[:len(results)]
+    n = len(hs)
     bymode = {}
     for h, (findings, stats) in zip(hs, results):
         for k in total: total[k] += stats[k]
@@ -781,16 +790,26 @@ def run_description_repairs(chk, drv, llb):
     chk.cov["description_repair_builds"] = n
 
 def run(chk):
+    ph = {}
+    def lap(name, t=[time.time()]):
+        now = time.time(); ph[name] = round(now - t[0], 1); t[0] = now
     drv = vlib.build_drivers(["bsys_driver"])["bsys_driver"]
     llb = vlib.llbuild_bin()
+    lap("build_repo_and_driver")
     model = vlib.model_bin("failure")
+    lap("extract_model")
     chk.proof_gate()
+    lap("proof_gate")
     shutil.rmtree(BASE, ignore_errors=True)
     os.makedirs(BASE)
     run_tables(chk, drv, model)
+    lap("tables")
     run_corpus(chk, drv, llb, model)
     run_description_repairs(chk, drv, llb)
+    lap("corpus")
     run_histories(chk, drv, llb, model)
+    lap("histories")
+    chk.cov["phase_wall_s"] = ph
     chk.assumptions = ["engine property C02 (a rule whose recorded value is not valid runs again; its dependents are re-evaluated after it) is cited, not proved here",
                        "values are modelled by kind; payload comparisons of isResultValid enter as a boolean (fs_ok)",
                        "the frontend's `cancelled` flag is set whenever a task observes cancellation (BuildSystemFrontendImpl::cancel is the only route)",
